@@ -19,8 +19,17 @@ def main():
     prop = a.prop.upper()
     mod = importlib.import_module(f"harness.{prop.lower()}")
     run = vcore.Run(prop, a.tier, seed)
+    run.replay_mode = bool(a.replay)
     try:
         vcore.ensure_static_build(getattr(mod, "STATIC", None))
+        if a.tier == "thorough" and not a.replay and getattr(mod, "STATIC", None):
+            props = [t for t in mod.STATIC if t.endswith("Props")] or list(mod.STATIC)
+            okc, summ = vcore.coqchk(props)
+            run.oblige("coqchk:" + ",".join(props), okc, "coqchk")
+            run.notes["coqchk"] = summ
+            run.checker_cmds.append("coqchk -silent -o -Q theories QV " + " ".join("QV." + t.replace("/", ".") for t in props))
+            if not okc:
+                run.find("coqchk", "coqchk rejects the compiled static theories", {"summary": summ}, concrete=False)
         if a.replay:
             data = json.load(open(a.replay))
             rc = mod.replay(run, data)
